@@ -17,6 +17,9 @@ pub enum Op {
     Resave(String),
     /// serialize + from_bytes; the history continues on the parsed archive (dirty must be clear)
     Reparse,
+    /// the current content written as a text-archive FILE by the harness's own writer - optionally with one key labelling a
+    /// second, later message as well - and parsed; the history continues on the parsed archive (dirty must be clear)
+    ParseForeign(Option<u16>),
 }
 
 #[derive(Clone, Debug, Hash, Serialize, Deserialize)]
@@ -44,6 +47,7 @@ fn exhaustive_ops() -> Vec<Op> {
         v.push(Op::Resave(k.into()));
     }
     v.push(Op::Reparse);
+    v.push(Op::ParseForeign(Some(0)));
     v
 }
 
@@ -51,10 +55,10 @@ impl Prop for C07 {
     type Case = Case;
     const ID: &'static str = "C07";
     fn rule() -> String {
-        "Histories of set_message / delete_message / has_message / get_message / set_title / set(k, get(k)) / serialize+re-parse starting from an empty archive are applied to the real archive and to an ordered-list model \
+        "Histories of set_message / delete_message / has_message / get_message / set_title / set(k, get(k)) / serialize+re-parse / parse of a file written by the harness's own text-archive writer (optionally with a duplicated key) starting from an empty archive are applied to the real archive and to an ordered-list model \
          (set replaces in place or appends, delete removes in place, stored text = input with backslash-n sequences turned into newlines, lookup = stored text with every newline escaped). After EVERY step: get_entries keys \
          in model order with the stored values, has_message and get_message for every key of the alphabet, the dirty flag (clear on a new and on a parsed archive, set after any set, unchanged by get/has/delete/set_title), set(k, get(k)) changes nothing. \
-         Bounded-exhaustive: all histories of length <= 4 (quick) / 5 (thorough) over 25 operations (3 keys x 6 messages mixing escape sequences, real newlines, double backslashes and trailing backslashes; delete; resave; re-parse); random: 30 keys, messages over \
+         Bounded-exhaustive: all histories of length <= 4 (quick) / 5 (thorough) over 26 operations (3 keys x 6 messages mixing escape sequences, real newlines, double backslashes and trailing backslashes; delete; resave; re-parse; parse of a harness-written file in which the first key also labels a second message); random: 30 keys, messages over \
          {letters, newline, backslash, n, CR, CJK}, <= 60 operations. Non-trivial: the history deletes a present key that is not the last one and sets a key afterwards, or stores a message holding both an escape sequence and a real newline, or sets on a parsed archive. Distinct = distinct case value."
             .into()
     }
@@ -62,7 +66,7 @@ impl Prop for C07 {
         vec!["the ordered-list model in harness/src/props/c07.rs is the statement".into()]
     }
     fn random_cases(tier: Tier) -> u64 {
-        tier.pick(10_000, 3_000_000)
+        tier.pick(40_000, 3_000_000)
     }
     fn strategy(tier: Tier) -> BoxedStrategy<Case> {
         let key = prop_oneof![4 => (0u8..6).prop_map(|i| format!("k{i}")), 1 => (0u8..30).prop_map(|i| format!("key{i}"))];
@@ -82,6 +86,7 @@ impl Prop for C07 {
             1 => msg.prop_map(Op::SetTitle),
             2 => key.prop_map(Op::Resave),
             1 => Just(Op::Reparse),
+            1 => proptest::option::of(any::<u16>()).prop_map(Op::ParseForeign),
         ];
         proptest::collection::vec(op, 1..=tier.pick(30, 60)).prop_map(|ops| Case { ops }).boxed()
     }
@@ -110,7 +115,7 @@ impl Prop for C07 {
         }
     }
     fn exhaustive_note(tier: Tier) -> Option<String> {
-        Some(format!("all histories of length 1..={} over 25 operations (3 keys x 6 messages, delete x3, resave x3, re-parse)", tier.pick(4, 5)))
+        Some(format!("all histories of length 1..={} over 26 operations (3 keys x 6 messages, delete x3, resave x3, re-parse, foreign parse)", tier.pick(4, 5)))
     }
     fn shrink(c: &Case) -> Vec<Case> {
         (0..c.ops.len())
@@ -213,6 +218,7 @@ impl Prop for C07 {
                         }
                     }
                 }
+                Op::ParseForeign(_) => {}
                 Op::Reparse => {
                     // titles are stored as Shift-JIS: only reparse when it is encodable
                     if !crate::gen::strings::is_sjis_lossless(&title) || title.contains('\0') {
@@ -240,6 +246,52 @@ impl Prop for C07 {
                     dirty = false;
                     parsed = true;
                     cx.label("re-parsed");
+                }
+            }
+            if let Op::ParseForeign(dup) = op {
+                if crate::gen::strings::is_sjis_lossless(&title) && !title.contains('\0') && model.iter().all(|(k, v)| crate::gen::strings::is_sjis_lossless(k) && !k.contains('\0') && !v.contains('\0')) {
+                    // own writer: title (Shift-JIS, NUL, padded to 4), messages (UTF-16LE, 2 NULs, padded to 4), one label per message
+                    let mut data: Vec<u8> = crate::gen::strings::sjis_encode(&title).unwrap_or_default();
+                    data.push(0);
+                    while data.len() % 4 != 0 {
+                        data.push(0);
+                    }
+                    let mut labels: std::collections::BTreeMap<u32, Vec<String>> = Default::default();
+                    let mut put = |data: &mut Vec<u8>, k: &str, v: &str| {
+                        labels.entry(data.len() as u32).or_default().push(k.to_string());
+                        for u in v.encode_utf16() {
+                            data.extend_from_slice(&u.to_le_bytes());
+                        }
+                        data.extend_from_slice(&[0, 0]);
+                        while data.len() % 4 != 0 {
+                            data.push(0);
+                        }
+                    };
+                    for (k, v) in &model {
+                        put(&mut data, k, v);
+                    }
+                    if let (Some(sel), false) = (dup, model.is_empty()) {
+                        let i = (*sel as usize * model.len()) >> 16;
+                        let k = model[i].0.clone();
+                        put(&mut data, &k, "second message under the same key");
+                        // the map keeps the key's place and the last value read
+                        model[i].1 = "second message under the same key".to_string();
+                        cx.label("foreign-file-with-duplicate-key");
+                        cx.nontrivial();
+                    }
+                    let content = crate::gen::archive::ArchiveContent { big_endian: false, data, cells: Default::default(), labels };
+                    let bytes = crate::refimpl::refbin::write_canonical(&content, None);
+                    t = match cx.call(|| TextArchive::from_bytes(&bytes, TextArchiveFormat::Unicode, Endian::Little)) {
+                        Some(Ok(r)) => r,
+                        Some(Err(e)) => {
+                            cx.fail("reparse-ok", format!("{name}: a conforming text-archive file written by the harness was rejected: {e}"));
+                            return;
+                        }
+                        None => return,
+                    };
+                    dirty = false;
+                    parsed = true;
+                    cx.label("parsed-foreign-file");
                 }
             }
             // full comparison after every step
